@@ -59,10 +59,34 @@ func respText(reqText string) string { return "re:" + reqText }
 func respNum(n int64) int64          { return n*3 + 1 }
 func failCode(id int64) connect.Code { return connect.Code(id%16 + 1) }
 
-func wantsFail(n int64) bool { return (n/1000)%5 == 0 }
+func wantsFail(n int64) bool { return (n/1000)%5 == 0 || wantsShared(n) }
+
+// Some failing calls return one shared sentinel *connect.Error value (with
+// metadata), the way applications return package-level errors. The library
+// may read it from any number of calls but must not change it.
+func wantsShared(n int64) bool { return (n/1000)%7 == 3 }
+
+func newSentinel() *connect.Error {
+	e := connect.NewError(connect.CodeUnavailable, errors.New("shared-sentinel"))
+	e.Meta().Set("X-Shared", "yes")
+	return e
+}
+
+var sentinel = newSentinel()
+
+func sentinelIntact() error {
+	m := sentinel.Meta()
+	if len(m) != 1 || len(m["X-Shared"]) != 1 || m["X-Shared"][0] != "yes" || sentinel.Code() != connect.CodeUnavailable || sentinel.Message() != "shared-sentinel" {
+		return fmt.Errorf("the shared error value returned by handlers was modified by the library: code %v, message %q, metadata %v (was unavailable, \"shared-sentinel\", map[X-Shared:[yes]])", sentinel.Code(), sentinel.Message(), m)
+	}
+	return nil
+}
 
 func callErr(n int64) error {
 	id := n / 1000
+	if wantsShared(n) {
+		return sentinel
+	}
 	e := connect.NewError(failCode(id), fmt.Errorf("err-of-call-%d", id))
 	e.Meta().Set("X-Err-Call", fmt.Sprint(id))
 	return e
@@ -117,6 +141,7 @@ func handlers() http.Handler {
 	}, opts...))
 	mux.Handle(prog.Procedure(prog.Bidi), connect.NewBidiStreamHandler(prog.Procedure(prog.Bidi), func(ctx context.Context, s *connect.BidiStream[pingv1.PingRequest, pingv1.PingResponse]) error {
 		s.ResponseHeader().Set("X-Call", s.RequestHeader().Get("X-Call"))
+		s.ResponseTrailer().Set("X-Call-T", s.RequestHeader().Get("X-Call"))
 		var first int64 = -1
 		for {
 			m, err := s.Receive()
@@ -284,14 +309,32 @@ func verify(r *result, phase string) error {
 			return fmt.Errorf("%s: expected its own error, got success", where)
 		}
 		id := int64(c.ID)
-		if r.err.Code != uint32(failCode(id)) || r.err.Msg != fmt.Sprintf("err-of-call-%d", id) {
-			return fmt.Errorf("%s: got error %v — not this call's error (code %d, err-of-call-%d)", where, r.err, failCode(id), id)
+		tag := fmt.Sprintf("call-%d", c.ID)
+		for _, v := range r.err.Meta.Values("X-Call-T") {
+			if v != tag {
+				return fmt.Errorf("%s: error metadata carries X-Call-T=%q, a trailer of another call (all values: %q)", where, v, r.err.Meta.Values("X-Call-T"))
+			}
 		}
-		if !strings.Contains(r.errText, fmt.Sprintf("err-of-call-%d", id)) {
-			return fmt.Errorf("%s: retained error text changed: %q", where, r.errText)
-		}
-		if got := r.err.Meta.Get("X-Err-Call"); got != fmt.Sprint(id) {
-			return fmt.Errorf("%s: error metadata X-Err-Call=%q belongs to another call", where, got)
+		if wantsShared(reqMsg(c, 0).N) {
+			if r.err.Code != uint32(connect.CodeUnavailable) || r.err.Msg != "shared-sentinel" || r.err.Meta.Get("X-Shared") != "yes" {
+				return fmt.Errorf("%s: handler returned the shared sentinel error (unavailable, \"shared-sentinel\", X-Shared: yes); got %v with metadata %v", where, r.err, r.err.Meta)
+			}
+			if got := r.err.Meta.Values("X-Err-Call"); len(got) != 0 {
+				return fmt.Errorf("%s: error metadata X-Err-Call=%q belongs to another call", where, got)
+			}
+			if err := sentinelIntact(); err != nil {
+				return fmt.Errorf("%s: %v", where, err)
+			}
+		} else {
+			if r.err.Code != uint32(failCode(id)) || r.err.Msg != fmt.Sprintf("err-of-call-%d", id) {
+				return fmt.Errorf("%s: got error %v — not this call's error (code %d, err-of-call-%d)", where, r.err, failCode(id), id)
+			}
+			if !strings.Contains(r.errText, fmt.Sprintf("err-of-call-%d", id)) {
+				return fmt.Errorf("%s: retained error text changed: %q", where, r.errText)
+			}
+			if got := r.err.Meta.Get("X-Err-Call"); got != fmt.Sprint(id) {
+				return fmt.Errorf("%s: error metadata X-Err-Call=%q belongs to another call", where, got)
+			}
 		}
 	} else if r.err != nil {
 		return fmt.Errorf("%s: unexpected error %v", where, r.err)
